@@ -366,6 +366,14 @@ package ast
 //@ func (*TaskfileGraph).Merge$2
 //@   site slices.SortStableFunc#1 ghost sortedIncl := arg0
 //@   site (*Taskfile).Merge#0 requires includes == sortedIncl && arg2 == includes[$i]                          [C09]
+// the position an include is sorted by is its index among the parent's include statements: the table is filled while
+// walking the statements in declaration order, one entry per namespace (a search in that list is no substitute: the
+// list is in declaration order, not sorted)
+//@   nosite slices.BinarySearch                                                                                 [C09]
+//@   nosite slices.BinarySearchFunc                                                                             [C09]
+//@   nosite slices.Index                                                                                        [C09]
+//@ func (*TaskfileGraph).Merge$2$1
+//@   site mapstore#0 requires arg1 == namespace                                                                 [C09]
 
 // ---- C06 / C08: merging an included Taskfile adds its tasks and variables to the parent; it never rewrites an
 // attribute (run:, method:, ...) of a task the parent already has
